@@ -254,6 +254,15 @@ func (e *Engine) issue(op *COp, why string) (Result, bool, *Violation) {
 		statsBefore = e.statsDigest()
 	}
 	res := e.S.Apply(op)
+	if e.S.KeptSeen > 0 {
+		e.St.Probes["query-kept-open-beyond-removal-notification"] += e.S.KeptSeen
+		e.S.KeptSeen = 0
+	}
+	if e.S.KeptTrouble != "" {
+		v := e.viol("lock-not-enforced", op, "%s %s: %s", op.Kind, op.Variant, e.S.KeptTrouble)
+		e.S.KeptTrouble = ""
+		return res, false, v
+	}
 	if expectPanic && res.Panicked {
 		if after := e.statsDigest(); after != statsBefore {
 			if lockedNow {
